@@ -228,6 +228,13 @@ func c16EvalFile(yamlPath string, records [][]byte, withOrchestrator bool, emit 
 }
 
 func c16ChildMain(args []string) {
+	if len(args) >= 1 && args[0] == "corpus" {
+		// prints the corpus case lines (see c16CorpusConfigs); buffer roots under /tmp/c16-corpus
+		for _, cf := range c16CorpusConfigs("/tmp/c16-corpus") {
+			fmt.Println((&Case{Kind: 0, S: cf.Encode(), Z: []int64{1}}).Line())
+		}
+		return
+	}
 	if len(args) >= 2 && args[0] == "render" {
 		// debugging aid: print the configuration file(s) and records of the case lines in a file
 		data, _ := os.ReadFile(args[1])
